@@ -236,6 +236,7 @@ structure St where
   m : KrakenModel.ConnState.State := {}
   nextId : Nat := 0
   active : List (String × Conn) := []
+  justClosed : Option String := none   -- pair (e.g. "p0h0") whose connection the implementation reported closed in the last operation
 
 def hashId? (t : String) : Option Nat :=
   if t = "h0" then some 0 else if t = "h1" then some 1 else if t = "hb" then some 2 else none
@@ -254,8 +255,11 @@ def step (s : St) (kind : String) (args impl : List String) : Option (St × Step
     let obs := (List.range 3).flatMap fun p => hs.map fun (ht, h) => s!"p{p}{ht}={pairTok s.cfg s.m p h}"
     let pf := impl.filterMap fun t => match t.splitOn "=" with
       | [k, "pending"] => some s!"side=impl key=pending-leak {k}: a pending entry outlives the connection attempt that created it"
+      | [k, "active"] => if s.justClosed = some k then
+          some s!"side=impl key=closed-conn-keeps-slot {k}: the connection was closed and its ConnClosed event applied, but the pair still occupies an active slot of the torrent"
+        else none
       | _ => none
-    some (s, { obs := obs, branch := "st", propfails := pf })
+    some ({ s with justClosed := none }, { obs := obs, branch := "st", propfails := pf })
   else if kind ≠ "op" then none else
   match args with
   | ["inconn", pt, nt, ct, bt] => do
@@ -271,11 +275,15 @@ def step (s : St) (kind : String) (args impl : List String) : Option (St × Step
       | .acceptFail => "acceptfail" | .rejected => "rejected" | .failed => "failed" | .active => "active" | .connRejected => "connrejected"
     let act := if r.2 = .active then (pt ++ name, (⟨s.nextId, real.getD 0, p, false⟩ : Conn)) :: s.active.filter (·.1 ≠ pt ++ name) else s.active
     let why := if r.2 = .failed then (if real.isNone then ".unknown" else ".mismatch") else if r.2 = .connRejected then "." ++ bf else ""
-    pure ({ s with m := r.1, nextId := s.nextId + 1, active := act }, { obs := [tok], branch := s!"inconn.{tok}{why}" })
+    let jc := if impl = ["connrejected"] then some (pt ++ name) else none
+    pure ({ s with m := r.1, nextId := s.nextId + 1, active := act, justClosed := jc }, { obs := [tok], branch := s!"inconn.{tok}{why}" })
   | ["drop", pt, ht] =>
     match s.active.find? (·.1 = pt ++ ht) with
     | some (_, c) =>
-      some ({ s with m := connClosed s.cfg s.m c, active := s.active.filter (·.1 ≠ pt ++ ht) }, { obs := ["closed"], branch := "drop.closed" })
+      let again := if blacklisted s.m c.peer c.hash then ".blacklisted" else ""
+      some ({ s with m := connClosed s.cfg s.m c, active := s.active.filter (·.1 ≠ pt ++ ht),
+                     justClosed := if impl = ["closed"] then some (pt ++ ht) else none },
+            { obs := ["closed"], branch := "drop.closed" ++ again })
     | none => some (s, { obs := ["none"], branch := "drop.none" })
   | _ => none
 
